@@ -149,6 +149,8 @@ func newton_root(f objective_root, x ConstVector,
   options []interface{}) (Vector, error) {
   x1 := AsDenseFloat64Vector(x)
   x2 := AsDenseFloat64Vector(x)
+  // a point visited at iteration 1, 2, 4, 8, ... (cycle detection)
+  xc := AsDenseFloat64Vector(x)
   // variables for lineSearch
   c  := ConstFloat64(0.9)
 
@@ -209,6 +211,15 @@ func newton_root(f objective_root, x ConstVector,
     if err != nil {
       return nil, err
     }
+    // the iteration is deterministic: once it returns to a point it has
+    // visited before it cycles forever (e.g. between two neighbouring
+    // floats if epsilon is below the attainable accuracy)
+    if Vequals(xc, x2) {
+      return x1, fmt.Errorf("iteration does not converge: it cycles")
+    }
+    if (i+1)&i == 0 {
+      xc.Set(x2)
+    }
     // swap variables
     x1, x2 = x2, x1
   }
@@ -235,6 +246,8 @@ func newton_min(
   options []interface{}) (Vector, error) {
   x1 := AsDenseFloat64Vector(x)
   x2 := AsDenseFloat64Vector(x)
+  // a point visited at iteration 1, 2, 4, 8, ... (cycle detection)
+  xc := AsDenseFloat64Vector(x)
   // variables for lineSearch
   c  := ConstFloat64(0.9)
   var y1 Scalar
@@ -324,6 +337,15 @@ func newton_min(
     y, g, H, err = f(x2)
     if err != nil {
       return nil, err
+    }
+    // the iteration is deterministic: once it returns to a point it has
+    // visited before it cycles forever (e.g. between two neighbouring
+    // floats if epsilon is below the attainable accuracy)
+    if Vequals(xc, x2) {
+      return x1, fmt.Errorf("iteration does not converge: it cycles")
+    }
+    if (i+1)&i == 0 {
+      xc.Set(x2)
     }
     y2.Set(y)
     x1, x2 = x2, x1
